@@ -282,14 +282,16 @@ class DepWorld(World):
 
 
 def verify_instance(inst_, idx):
-    name = f"dependent[{idx}:{'|'.join(','.join(a) for a in inst_['annotations'])}@{','.join(inst_['probe'])}]"
+    name = f"dependent[{idx}:{'|'.join(','.join(a) for a in inst_['annotations'])}@{','.join(inst_['probe'])}{',self' if inst_.get('is_method') else ''}]"
     name = name.replace("typing.", "").replace("<class '", "").replace("'>", "")
     obs = []
     tree = ast.parse(inst_["source"])
     fn = tree.body[0]
     w = DepWorld(inst_["globals"])
-    nargs = len(fn.args.args)
-    argnames = [a.arg for a in fn.args.args]
+    off = 1 if inst_.get("is_method") else 0  # methods: the instance comes first and is passed on as it is
+    nargs = len(fn.args.args) - off
+    argnames = [a.arg for a in fn.args.args][off:]
+    selfobj = ArgV("self")
     rank = sorted({g["index"] for g in inst_["globals"].values() if g["kind"] == "handler"} | {it["handler"] for g in inst_["globals"].values() if g["kind"] == "keyed" for it in g["items"]})
     decl = inst_["declared"]
     args = [ArgV(f"a{i}") for i in range(nargs)]
@@ -298,7 +300,12 @@ def verify_instance(inst_, idx):
 
     def passed_intact(ev):
         """positional parameters passed positionally in order, keyword parameters passed as keywords under their names"""
-        pos_ok = len(ev[2]) == npos_ and all(a is b for a, b in zip(ev[2], args[:npos_]))
+        got = list(ev[2])
+        if off:
+            if not got or got[0] is not selfobj:
+                return False
+            got = got[1:]
+        pos_ok = len(got) == npos_ and all(a is b for a, b in zip(got, args[:npos_]))
         kw_ok = set(ev[3]) == set(kwn) and all(ev[3][n_] is args[npos_ + j] for j, n_ in enumerate(kwn))
         return pos_ok and kw_ok and argnames[npos_:] == kwn
 
@@ -329,7 +336,7 @@ def verify_instance(inst_, idx):
                             I.assume(z3.Not(z3.And(AT.eq(f"a{k}", v), AT.isinst(f"a{k}", cn))))
         env = Env(None)
         try:
-            r = I.exec_function(fn, "emitted", "emitted:__DEPENDENT_DISPATCH__", list(args), {}, env)
+            r = I.exec_function(fn, "emitted", "emitted:__DEPENDENT_DISPATCH__", ([selfobj] if off else []) + list(args), {}, env)
             out = ("return", r)
         except PyRaise as e:
             out = ("raise", e.exc)
